@@ -34,6 +34,8 @@ Inductive expr :=
 | EMatchOpt (s : expr) (x : string) (some_br none_br : expr)
 | ELet (x : string) (e body : expr)
 | EStruct (fs : list (string * expr))
+| EMatchOrd (a b : expr) (lt eq gt : expr)   (* match a.cmp(&b) { Less => .., Equal => .., Greater => .. } *)
+| EReturn (a : expr)                     (* return e *)
 | EPanic                                 (* panic!() / unreachable *)
 | EUnit.
 
@@ -97,6 +99,7 @@ Definition meth1 (m : string) (r a : val) : outcome :=
   | "unwrap_or", VNone, d => Ret d
   | "ok_or", VSome v, _ => Ret (VSome v)        (* Result with one error value = Option *)
   | "ok_or", VNone, _ => Ret VNone
+  | "set_ptr", _, _ => Ret VUnit                 (* the store of the new finger: the value stored is the one returned *)
   | _, _, _ => Stuck
   end.
 
@@ -105,6 +108,9 @@ Definition meth0 (m : string) (r : val) : outcome :=
   | "is_power_of_two", VN x => Ret (VB (pow2b x))
   | "next_power_of_two", VN x => if npow2 x <? W then Ret (VN (npow2 x)) else Ovf
   | "get", v => Ret v                                   (* Cell::get *)
+  | "as_ref", v => Ret v                                (* NonNull::as_ref: the pointee is the record itself *)
+  | "as_ptr", v => Ret v                                (* NonNull::as_ptr: addresses are numbers *)
+  | "cast", v => Ret v
   | "unwrap", VSome v => Ret v
   | "unwrap", VNone => Panic
   | "is_some", VSome _ => Ret (VB true)
@@ -136,6 +142,7 @@ Fixpoint eval (ft : fntab) (fuel : nat) (en : env) (e : expr) {struct fuel} : ou
           match f, args with
           | "max", [VN x; VN y] => Ret (VN (N.max x y))
           | "min", [VN x; VN y] => Ret (VN (N.min x y))
+          | "new_unchecked", [v] => Ret v            (* NonNull::new_unchecked *)
           | _, _ => Stuck
           end
       end in
@@ -206,6 +213,13 @@ Fixpoint eval (ft : fntab) (fuel : nat) (en : env) (e : expr) {struct fuel} : ou
            | [] => Ret (VRec (List.rev acc))
            | (f, e1) :: r => bind (ev en e1) (fun v => go r ((f, v) :: acc))
            end) fs []
+    | EMatchOrd a b lt eq gt =>
+        bind (ev en a) (fun va => bind (ev en b) (fun vb =>
+          match va, vb with
+          | VN x, VN y => match x ?= y with Lt => ev en lt | Eq => ev en eq | Gt => ev en gt end
+          | _, _ => Stuck
+          end))
+    | EReturn a => bind (ev en a) (fun v => Early v)
     | EPanic => Panic
     | EUnit => Ret VUnit
     end
